@@ -698,13 +698,33 @@ impl PoolMap {
             // if ancestors count exceed limitation,
             // try to evict some conflicted transactions due to ref cells
 
+            // The transactions this entry spends or depends on, and their ancestors, must
+            // stay: evicting one of them (evictions take the descendants along) would remove
+            // a parent of the entry itself.
+            let mut required: HashSet<ProposalShortId> = tx
+                .input_pts_iter()
+                .chain(tx.cell_deps_iter().map(|dep| dep.out_point()))
+                .map(|pt| ProposalShortId::from_tx_hash(&pt.tx_hash()))
+                .filter(|id| self.links.inner.contains_key(id))
+                .collect();
+            let required_ancestors = self
+                .links
+                .calc_relation_ids(required.clone(), Relation::Parents);
+            required.extend(required_ancestors);
+
             // sort them to find out the transactions with lowest fees
             let evict_candidates: Vec<ProposalShortId> = self
                 .entries
                 .iter_by_evict_key()
-                .filter(move |entry| cell_ref_parents.contains(&entry.id))
+                .filter(move |entry| {
+                    cell_ref_parents.contains(&entry.id) && !required.contains(&entry.id)
+                })
                 .map(|x| x.id.clone())
                 .collect();
+
+            if ancestors_count.saturating_sub(evict_candidates.len()) > self.max_ancestors_count {
+                return Err(Reject::ExceededMaximumAncestorsCount);
+            }
 
             let mut iter = evict_candidates.iter();
             while ancestors_count > self.max_ancestors_count {
@@ -712,6 +732,9 @@ impl PoolMap {
                     let removed = self.remove_entry_and_descendants(next_id);
                     ancestors_count = ancestors_count.saturating_sub(1);
                     parents.remove(next_id);
+                    for removed_entry in &removed {
+                        parents.remove(&removed_entry.proposal_short_id());
+                    }
                     evicted.extend(removed);
                 } else {
                     break;
